@@ -84,6 +84,8 @@ func vfConnOutcome(err error, echoed string, want string) string {
 		// the scripted node only ever sends well-formed answers: the caller was handed bytes that are
 		// not the response to its request
 		return "garbled"
+	case strings.Contains(err.Error(), "no compressor available"):
+		return "frameerr"
 	case strings.Contains(err.Error(), "injected frame build failure"):
 		return "builderr"
 	case strings.Contains(err.Error(), "already in use"):
@@ -162,6 +164,30 @@ func vfRunConnScenario(cfg vfConnScenarioCfg) (events []map[string]interface{}, 
 				// the response arrives in two pieces, the gap longer than the driver's read deadline
 				fr := vfEncodeFrame(f.Version, 0, f.Stream, vfOpResult, vfSetKeyspaceBody(tok))
 				nc.SendSplit(fr, vfHeaderLen(f.Version)+3, driverTimeout+driverTimeout/2)
+				return
+			}
+			if fate == "err" {
+				// a server ERROR frame (invalid query) carrying the token in its message
+				nc.Reply(f, vfOpError, vfErrorBody(0x2200, tok, nil))
+				return
+			}
+			if fate == "cflag" {
+				// a non-conforming answer: compression flag set on a connection without compressor,
+				// the body spelling a complete response addressed to ANOTHER outstanding stream
+				nmu.Lock()
+				victim := -1
+				for st, l := range withheld {
+					if len(l) > 0 && st != f.Stream {
+						victim = st
+						break
+					}
+				}
+				nmu.Unlock()
+				body := vfSetKeyspaceBody("forged_" + tok)
+				if victim >= 0 {
+					body = vfEncodeFrame(f.Version, 0, victim, vfOpResult, vfSetKeyspaceBody("forged_"+tok))
+				}
+				nc.Send(vfEncodeFrame(f.Version, 0x01, f.Stream, vfOpResult, body))
 				return
 			}
 			nc.Reply(f, vfOpResult, vfSetKeyspaceBody(tok))
@@ -246,11 +272,19 @@ func vfRunConnScenario(cfg vfConnScenarioCfg) (events []map[string]interface{}, 
 		ok, dump := vfWithin(8*time.Second, func() {
 			fr, xerr = conn.exec(ctx, fb, nil)
 			if xerr == nil {
+				if id%2 == 0 {
+					// the caller is slow to look at its response: the receiver moves on meanwhile
+					time.Sleep(time.Duration(50+(id*37)%250) * time.Microsecond)
+				}
 				frame, perr := fr.parseFrame()
 				if perr != nil {
 					xerr = fmt.Errorf("vfgarbled: %w", perr)
 				} else if k, isKs := frame.(*resultKeyspaceFrame); isKs {
 					echoed = k.keyspace
+				} else if ef, isErr := frame.(error); isErr && fate == "err" && strings.Contains(ef.Error(), "tok_") {
+					// the server's ERROR frame for this request: the token is in its message
+					msg := ef.Error()
+					echoed = msg[strings.Index(msg, "tok_"):]
 				} else {
 					xerr = fmt.Errorf("vfgarbled: unexpected frame %T", frame)
 				}
@@ -336,6 +370,10 @@ func vfRunConnScenario(cfg vfConnScenarioCfg) (events []map[string]interface{}, 
 					fate = "never"
 				case x < 45 && cfg.Kind == "midbody":
 					fate = "split"
+				case x < 55 && cfg.Kind == "mixed":
+					fate = "err"
+				case x < 40 && cfg.Kind == "badflag":
+					fate = "cflag"
 				}
 				cancelAfter := time.Duration(-1)
 				if x := crng.Intn(100); x < 4 {
@@ -424,7 +462,7 @@ func TestVfConnStress(t *testing.T) {
 	n := vfEnvInt("VF_NSCEN", 12)
 	callers := vfEnvInt("VF_CALLERS", 8)
 	per := vfEnvInt("VF_PERCALL", 12)
-	kinds := []string{"plain", "srvclose", "extclose", "writefail", "buildfail", "exhaust", "coalesce", "unsol", "midbody"}
+	kinds := []string{"plain", "srvclose", "extclose", "writefail", "buildfail", "exhaust", "coalesce", "unsol", "midbody", "mixed", "badflag"}
 	rng := rand.New(rand.NewSource(vfSeed()))
 	var wg sync.WaitGroup
 	sem := make(chan struct{}, 8)
